@@ -9,9 +9,14 @@ L3 == <<1, MkClamped(1, <<Half>>, <<1>>)>>
 B2 == <<2, MkClamped(2, <<Half>>, <<0>>)>>
 K2 == <<2, MkClamped(2, <<R(1,4)>>, <<1>>)>>
 K3 == <<3, MkClamped(3, <<R(1,4), R(3,4)>>, <<1, 1>>)>>
-CurveSet == Curves({K2, K3, L3}, {2, 3}, BOOLEAN, Seed)
-SurfSet == {s \in Surfaces({B1, L3, K2}, {B2, L3, K2, K3}, {3}, BOOLEAN, Seed) : s.size[1] # s.size[2]}
-VolSet == {s \in Volumes({B1, L3}, {L3, K2}, {B1, K2}, BOOLEAN, Seed) : DiffSizes(s)}
+\* variants that stress the writers / readers: coordinates of magnitude 1e-5 (printed in exponent notation) and weights
+\* 1/2, 3/2, 1/2, ... whose sum equals the number of control points
+Tiny(s) == ScaleBy(s, R(3, 100000))
+HalfW(s) == [s EXCEPT !.P = Combine(Ctrlpts(s), [i \in 1..Len(s.P) |-> IF i % 2 = 1 THEN R(1, 2) ELSE R(3, 2)])]
+Variants(S) == S \cup {Tiny(s) : s \in {x \in S : ~x.rat}} \cup {HalfW(s) : s \in {x \in S : x.rat /\ Len(x.P) % 2 = 0}}
+CurveSet == Variants(Curves({K2, K3, L3}, {2, 3}, BOOLEAN, Seed))
+SurfSet == Variants({s \in Surfaces({B1, L3, K2}, {B2, L3, K2, K3}, {3}, BOOLEAN, Seed) : s.size[1] # s.size[2]})
+VolSet == Variants({s \in Volumes({B1, L3}, {L3, K2}, {B1, K2}, BOOLEAN, Seed) : DiffSizes(s)})
 \* containers of 1..3 shapes of one kind (sequence order is the file order)
 SeqsOf(S, kind) == {<<a>> : a \in S} \cup
    (IF kind = "curve" THEN {<<MkShape(<<2>>, <<K2[2]>>, 2, TRUE, Seed), MkShape(<<3>>, <<K3[2]>>, 2, FALSE, Seed + 1), MkShape(<<1>>, <<L3[2]>>, 2, TRUE, Seed + 2)>>}
